@@ -579,6 +579,10 @@ def build_visit(mir, cube):
     return eng, VW(), list(sym.cons), qs
 
 _cubes0, _name0, _build0 = cubes, cube_name, build
-def cubes(tier, has_fc): return _cubes0(tier, has_fc) + [{'visit': True, 'response': r} for r in ('Module', 'External', 'Redirect')]
-def cube_name(c): return 'visit_' + c['response'].lower() if c.get('visit') else _name0(c)
-def build(mir, cube): return build_visit(mir, cube) if cube.get('visit') else _build0(mir, cube)
+def cubes(tier, has_fc): return _cubes0(tier, has_fc) + [{'visit': True, 'response': r} for r in ('Module', 'External', 'Redirect')] + [{'jsrmeta': True}]
+def cube_name(c): return 'version_manifest_load' if c.get('jsrmeta') else 'visit_' + c['response'].lower() if c.get('visit') else _name0(c)
+def build(mir, cube):
+    if cube.get('jsrmeta'):
+        from . import jsrmeta
+        return jsrmeta.build(mir, cube)
+    return build_visit(mir, cube) if cube.get('visit') else _build0(mir, cube)
